@@ -36,7 +36,8 @@ RULE = (
 ASSUMPTIONS = ["process B rebuilds each object from the symbolic history alone; any dependence on shared state or call order shows as a digest mismatch"]
 
 NUMF = ["x", "center(x)", "scale(x)", "poly(x, 2)", "bs(x, df=4)", "bs(x, knots=kn)", "cr(x, df=3)", "scale(x, center=cval)", "I(x * cval)",
-        "{center(x) * center(x)}", "log(p)", "p", "standardize(p)", "bs(p, knots=kn2, degree=2)", "hashed(S, levels=4)"]
+        "{center(x) * center(x)}", "log(p)", "p", "standardize(p)", "bs(p, knots=kn2, degree=2)", "hashed(S, levels=4)",
+        "center(`b m`)", "scale(`b m`)", "poly(`b m`, 2)", "`b m`", "I(`b m` * 2)"]
 CATF = ["A", "C(A)", "C(A, contr.sum)", "C(A, contr.helmert)", "S", "C(S, levels=lv)", "B", "C(B, contr.poly)"]
 
 
@@ -45,7 +46,7 @@ def gen_formula(rng):
         facs = rng.sample(["A", "B", "S", "G", "C(A)", "C(G, contr.sum)"], rng.randint(2, 4))
         facs = [f for i, f in enumerate(facs) if f.strip("C()").split(",")[0] not in {g.strip("C()").split(",")[0] for g in facs[:i]}]
     else:
-        facs = rng.sample(NUMF, rng.randint(1, 2)) + rng.sample(CATF, rng.randint(0, 3))
+        facs = rng.sample(NUMF, rng.randint(1, 3)) + rng.sample(CATF, rng.randint(0, 3))
     terms = []
     for _ in range(rng.randint(1, 3)):
         terms.append(":".join(rng.sample(facs, rng.randint(1, min(3, len(facs))))))
@@ -68,6 +69,7 @@ def gen_frame(rng, n, nulls):
     return {"cols": [
         ["x", {"kind": "num", "dtype": "float64", "values": [round(rng.uniform(0.5, 9.5), 4) for _ in range(n)]}],
         ["p", {"kind": "num", "dtype": "float64", "values": [nul(round(rng.uniform(1, 3), 4)) for _ in range(n)]}],
+        ["b m", {"kind": "num", "dtype": "float64", "values": [round(rng.gauss(70, 10), 3) for _ in range(n)]}],
         ["A", {"kind": "cat", "categories": ["u", "v", "w"], "values": cat(["u", "v", "w"])}],
         ["B", {"kind": "cat", "categories": ["k", "l"], "values": [nul(v) for v in cat(["k", "l"])]}],
         ["S", {"kind": "text", "dtype": "object", "values": cat(["s1", "s2", "s3"])}],
